@@ -247,18 +247,18 @@ namespace awkward {
   IndexedGenericBuilder::snapshot() const {
     Index64 index(index_.ptr(), 0, index_.length(), kernel::lib::cpu);
     if (hasnull_) {
-      return std::make_shared<IndexedOptionArray64>(
+      return IndexedOptionArray64(
         Identities::none(),
         util::Parameters(),
         index,
-        array_);
+        array_).simplify_optiontype();
     }
     else {
-      return std::make_shared<IndexedArray64>(
+      return IndexedArray64(
         Identities::none(),
         util::Parameters(),
         index,
-        array_);
+        array_).simplify_optiontype();
     }
   }
 
